@@ -97,6 +97,7 @@ def generate(rng, tier):
     near = [-1, 0, 13, 99, 10 ** 17, "0", "13", "00", "000012x", "{jan}", '"1"', '"jan"', "{1}", "", " jan", "jan ", "janu",
             "ja", "sept", "Sept.", "1.0", "+1", "-1", "1 ", "x", "maybe", "marc", "decembe", "١", "²", "1²",
             "١٢", "１", None, ["jan"], [], "JAN", "İan", "maſ", "MAY", "may", "May"]
+    near += [True, False]          # compared with the model only (see impl)
     # beyond int()'s digit limit (sys.get_int_max_str_digits() = 4300): zero-padded months are still months, the rest is unchanged
     near += ["0" * 4300 + "1", "0" * 5000 + "12", "1" * 4301, "0" * 4299 + "1", {"pow10": [1, 4300, 0]}, {"pow10": [-1, 4300, 0]}, {"pow10": [1, 4300, -1]},
              "\u0660" * 4500 + "\u0661\u0662", "9" * 5000]
@@ -331,6 +332,10 @@ def impl(case):
         orig = [(f.key, f.value) for i, f in enumerate(fields) if i != pos]
         if shape != 1 and [k for k, _ in others] != [k for k, _ in orig]:
             ok, detail = False, "other fields changed"
+    if isinstance(v, bool):
+        # bool month values: isinstance(True, int) holds in Python, the property does not quantify over them (DESIGN 7);
+        # only "never raises" and the model comparison (Model/Month.v is faithful for VBool, theorem C15_bool_true) apply
+        ok, detail = True, ""
     rec["oracle"] = {"ok": ok, "detail": detail}
     m = month_of(v)
     rec["nontrivial"] = (m is not None) or case["stream"] in ("near", "shape")
